@@ -28,8 +28,9 @@ RULE = ("a case is one abstract definition (random list of lines over fields of 
         "bracket forms, versioned types of a fixed dependency set, paddings, constants with small expressions, all directives, "
         "the service marker, comments on statement lines and on own lines, empty and blanks-only lines) read in 12-14 formatting "
         "variants; non-trivial = at least two attribute statements and at least one comment; distinct = by hash of the case")
-THEOREMS_NOTE = ("C03_mirror fixes the only admissible model for the abstract lines; C03_final_newline / C03_blank_lines / "
-                 "C03_extra_lines_partial say which formatting changes cannot change it; C03_render closes the loop")
+THEOREMS_NOTE = ("C03_mirror (+ C03_mirror_once) fixes the only admissible model for the abstract lines; C03_final_newline / C03_blank_lines / "
+                 "C03_extra_comment_lines / C03_extra_empty_lines / C03_same_statements_partial say which formatting changes cannot change it "
+                 "(docs only, for extra comment and empty lines); C03_render closes the loop")
 TRUSTED = ["the vendored parsimonious PEG engine (tokenisation of a line into statement / blanks / comment) is exercised through "
            "the implementation only; the renderer of harness/props/c03.py decides what a formatting variant is",
            "expected str(value) of constants and expected array capacities are computed by the generator with Python int/Fraction "
